@@ -41,6 +41,9 @@ ASSUMPTIONS = [
     "do_action's callbacks are side-effect callbacks not named by the property text; they are judged because the code guards them explicitly (reported under class side-effect-slot)",
     "a failure reached only after the top subscriber already terminated (live group/window subscribers) is judged for clause (a) only",
     "thorough: clause (c) 'no further callbacks / all subscriptions closed' is judged only when no inner (group/window) subscriber was adopted, since a live inner subscriber legitimately keeps the upstream running",
+    "embedded: clause (b) is demanded only while the target is still subscribed: if the downstream unsubscribed after the callback raised but before an asynchronously delivered on_error (using -> scheduled throw) could arrive, with no notification in between, only (a) and (c) are judged (class unsubscribed-before-delivery); forms with asynchronous delivery only get suffix operators that never unsubscribe early",
+    "embedded: while a synchronous source, or the target operator itself, is still emitting from inside subscribe() a finished downstream operator cannot unsubscribe yet; then only 'the exception reached the operator's observer as on_error' is demanded (class b-not-judged-sync-emitter)",
+    "embedded: the element kind is tracked through prefix, target and suffix (operators that inject defaults/initial values reset it), and a generated surrounding pipeline that already fails without any injection is discarded (class inconclusive:pipeline-fails-unarmed)",
     "cases with >=90 actions at one virtual instant or exceeding the work budget are discarded as inconclusive and counted",
 ]
 
@@ -404,41 +407,64 @@ class _Spy:
 
     def __init__(self, lab):
         self.lab = lab
-        self.subs = []  # [open_seq, end_seq|None]
+        self.subs = []  # [open_seq, end_seq|None, how: None|"terminal"|"disposed", seq at which subscribe() returned|None]
         self.errors = []  # [seq, exception]
+        self.passed = []  # seq of every notification that went through
 
     def __call__(self, source):
         lab = self.lab
 
         def subscribe(observer, scheduler=None):
-            rec = [lab.next_seq(), None]
+            rec = [lab.next_seq(), None, None, None]
             self.subs.append(rec)
 
-            def end():
+            def end(how):
                 if rec[1] is None:
                     rec[1] = lab.next_seq()
+                    rec[2] = how
+
+            def on_next(x):
+                self.passed.append(lab.next_seq())
+                observer.on_next(x)
 
             def on_error(e):
+                self.passed.append(lab.next_seq())
                 self.errors.append([lab.next_seq(), e])
-                end()
+                end("terminal")
                 observer.on_error(e)
 
             def on_completed():
-                end()
+                self.passed.append(lab.next_seq())
+                end("terminal")
                 observer.on_completed()
 
-            d = source.subscribe(observer.on_next, on_error, on_completed, scheduler=scheduler)
+            d = source.subscribe(on_next, on_error, on_completed, scheduler=scheduler)
+            rec[3] = lab.next_seq()
 
             def dispose():
-                end()
+                end("disposed")
                 d.dispose()
 
             return Disposable(dispose)
 
         return Observable(subscribe)
 
+    def unsubscribed_before_delivery(self, seq):
+        """The subscription that was live at `seq` was disposed by the downstream later on without any notification having
+        passed in between: a delivery still pending at that moment (e.g. a scheduled throw()) was legitimately cancelled."""
+        for a, b, how, _r in self.subs:
+            if a < seq and b is not None and b > seq and how == "disposed":
+                if not any(seq < q < b for q in self.passed):
+                    return True
+        return False
+
     def live_at(self, seq):
-        return any(a < seq and (b is None or b > seq) for a, b in self.subs)
+        return any(a < seq and (b is None or b > seq) for a, b, _h, _r in self.subs)
+
+    def subscribing_at(self, seq):
+        """The target was still inside its own subscribe() at `seq` (it emits or calls back synchronously while being
+        subscribed): a downstream operator that is already finished has no disposable yet to unsubscribe with."""
+        return any(a < seq and (r is None or r > seq) for a, _b, _h, r in self.subs)
 
 
 def _execute(case, k):
@@ -471,10 +497,13 @@ def _run(case):
     cls = [f"fam:{case['fam']}", f"k:{k}"]
     if case["form"] in SIDE_EFFECT_FORMS:
         cls.append("side-effect-slot")
+    embedded = case.get("pre") is not None or bool(case.get("suf")) or case.get("args") is not None
     if k == "last":
         lab0, p0, tslot, _, exc0 = _execute(case, None)
         if lab0.inconclusive:
             return SKIP(lab0.inconclusive)
+        if embedded and (exc0 is not None or lab0.escaped is not None):
+            return SKIP("pipeline-fails-unarmed")  # the generated surroundings misbehave without any injection: not C09's business
         if exc0 is not None:
             raise exc0
         if lab0.escaped is not None:
@@ -489,6 +518,12 @@ def _run(case):
     tag = f"inj:{tslot}:{k}"
     detail = f"case={case} slot={tslot} k={k} trace={p.trace()}"
     # (a) no escape
+    foreign = sub_exc if sub_exc is not None else lab.escaped
+    if embedded and foreign is not None and not (isinstance(foreign, Tagged) and foreign.tag == tag):
+        # some other exception escaped: judge it only if the same pipeline is clean when nothing is injected
+        lab0, _p0, _t0, _c0, exc0 = _execute(case, None)
+        if lab0.inconclusive or exc0 is not None or lab0.escaped is not None:
+            return SKIP("pipeline-fails-unarmed")
     if sub_exc is not None:
         if isinstance(sub_exc, Tagged) and sub_exc.tag == tag:
             return FAIL(f"escape-subscribe|{label}", f"injected exception propagated out of subscribe(); {detail}", classes=cls)
@@ -518,19 +553,26 @@ def _run(case):
         return OK(True, cls + ["after-terminal"])
     # (b) delivered as on_error with the injected exception
     delivered = term is not None and term[1] == "E" and term[2] == ["exc", tag]
+    judge_b = True
     if not delivered and spy is not None:
-        if not any(isinstance(e, Tagged) and e.tag == tag for _, e in spy.errors):
+        forwarded = any(isinstance(e, Tagged) and e.tag == tag for _, e in spy.errors)
+        if not forwarded and spy.unsubscribed_before_delivery(inj_seq):
+            # the downstream unsubscribed from the target after the callback raised but before the (asynchronously delivered)
+            # on_error could reach it: unsubscribing cancels the pending delivery. Only (a) and (c) are judged.
+            judge_b = False
+            cls.append("unsubscribed-before-delivery")
+        elif not forwarded:
             return FAIL(f"not-forwarded|{label}", f"the operator did not hand the exception to its observer as on_error; {detail}", classes=cls)
-        if _sync_in_progress(lab, inj_seq):
-            # a source emitting synchronously inside subscribe() cannot be unsubscribed by a downstream operator that is
-            # already finished; whether the subscriber still listens is not observable -> subscriber-level clause not judged
+        if judge_b and (_sync_in_progress(lab, inj_seq) or spy.subscribing_at(inj_seq)):
+            # a source emitting synchronously inside subscribe() (or the operator itself emitting/calling back while it is being
+            # subscribed) cannot be unsubscribed by a downstream operator that is already finished; whether the subscriber
+            # still listens is not observable -> the exception reached the operator's observer, subscriber-level clause not judged
             return OK(True, cls + ["b-not-judged-sync-emitter"])
-    if term is None:
+    if judge_b and term is None:
         return FAIL(f"not-delivered|{label}", f"the subscriber never received a terminal; {detail}", classes=cls)
-    if not delivered:
+    if judge_b and not delivered:
         return FAIL(f"wrong-terminal|{label}", f"expected on_error({tag}), got {term[:3]}; {detail}", classes=cls)
     # (c) pipeline stops
-    embedded = case.get("pre") is not None or bool(case.get("suf")) or case.get("args") is not None
     judge_c = (not embedded) or len(lab.probes) == 1
     if judge_c:
         inj_action = next(a for e, a in zip(lab.cb_log, lab.cb_action) if e[1] == inj_seq)
@@ -611,15 +653,51 @@ def _reach(case):
 # ---------------------------------------------------------------------------------------
 # thorough: embedded in random pipelines
 
+# operators declared out="same" that nevertheless inject foreign elements (defaults, initial values) into the stream:
+# after them the element kind is no longer 'obs'/'notif'
+_KIND_RESET = {
+    "start_with", "default_if_empty", "element_at_or_default", "first_or_default", "last_or_default", "single_or_default",
+    "publish_value_ref_count",
+}
+
+
+def _kind_through(kind, name):
+    return "any" if name in _KIND_RESET else _kind_after(kind, OPS[name])
+
+
+def _well_kinded(ops_list, kind="any"):
+    """Drop operators whose required input kind is not guaranteed at their position; returns (ops, resulting kind)."""
+    out = []
+    for name, args in ops_list:
+        need = OPS[name].inp
+        if need in ("obs", "notif") and kind != need:
+            continue
+        out.append([name, args])
+        kind = _kind_through(kind, name)
+    return out, kind
+
+
+# forms that hand a callback failure to the observer through a scheduled action (using: throw(exc).subscribe(observer, scheduler))
+_ASYNC_DELIVERY = ("R:using",)
+# operators that never unsubscribe from their source before it terminates (no auxiliary source, no short-circuit)
+_NEVER_UNSUBSCRIBE_EARLY = {
+    "map", "map_indexed", "starmap", "starmap_indexed", "pluck", "filter", "filter_indexed", "skip", "skip_last", "take_last",
+    "take_last_buffer", "skip_while", "skip_while_indexed", "distinct", "distinct_until_changed", "pairwise", "start_with",
+    "default_if_empty", "ignore_elements", "as_observable", "reduce", "scan", "count", "sum", "average", "min", "max", "min_by", "max_by",
+    "to_list", "to_set", "to_dict", "last", "last_or_default", "do_action", "finally_action", "share", "publish_ref_count",
+    "buffer_with_count", "window_with_count", "group_by",
+}
 _SUFFIX_EXCL_TAGS = {"time", "resub"}
 # ReplaySubject delivers through a scheduled observer, i.e. it shifts notifications to later scheduler actions like a time operator
 _SUFFIX_EXCL_OPS = ("replay_mapper", "multicast_factory_mapper")
 
 
-def _suffix_ops(kind_in):
+def _suffix_ops(kind_in, only=None):
     names = {"any": [], "obs": [], "notif": []}
     for n, o in OPS.items():
         if (o.tags & _SUFFIX_EXCL_TAGS) or n in ABSORBERS or n in _SUFFIX_EXCL_OPS:
+            continue
+        if only is not None and n not in only:
             continue
         names[o.inp].append(n)
 
@@ -633,7 +711,7 @@ def _suffix_ops(kind_in):
                 cands = names[kind]
             name = draw(st.sampled_from(sorted(cands)))
             out.append([name, draw(OPS[name].args)])
-            kind = _kind_after(kind, OPS[name])
+            kind = _kind_through(kind, name)
         return out
 
     return _s()
@@ -652,15 +730,15 @@ def _embedded(draw):
     kind = "any"
     if not root:
         if draw(st.integers(0, 3)) > 0:
-            case["pre"] = draw(pipelines(max_ops=2, max_len=5))
-            for n, _a in case["pre"]["ops"]:
-                kind = _kind_after(kind, OPS[n])
+            pre = draw(pipelines(max_ops=2, max_len=5))
+            pre["ops"], kind = _well_kinded(pre["ops"])
+            case["pre"] = pre
         if draw(st.booleans()):
             case["args"] = draw(OPS[f.op].args)
-        kind = _kind_after(kind, OPS[f.op])
+        kind = _kind_through(kind, f.op)
     for n, _a in f.post:
-        kind = _kind_after(kind, OPS[n])
-    case["suf"] = draw(_suffix_ops(kind))
+        kind = _kind_through(kind, n)
+    case["suf"] = draw(_suffix_ops(kind, _NEVER_UNSUBSCRIBE_EARLY if fid in _ASYNC_DELIVERY else None))
     case["inner"] = draw(st.sampled_from([None, "now", "now"]))
     return case
 
